@@ -434,6 +434,15 @@ class RefSig:
                 rv = self.resolve(v)
                 if not (isinstance(rv, dict) and "ref" in rv and self.bp["nodes"][rv["ref"]].get("meta") is False):
                     continue
+            if isinstance(default, tuple) and default and default[0] == "cfgdefault":
+                # default = a configuration object: skipped when unset or when the value is a
+                # configuration of exactly that class whose stored values all equal the default's
+                if name not in args or self.equals_config_default(v, default):
+                    continue
+                if self.is_meta_node(v):
+                    continue
+                items.append((name, self.vsig(v, tp, path, t)))
+                continue
             if name not in args:
                 v = self._default_value(default, tp)
             if kind != "const":
@@ -445,6 +454,26 @@ class RefSig:
                 continue
             items.append((name, self.vsig(v, tp, path, t)))
         return ("cfg", sp["id"], tuple(items), tasksig)
+
+    def equals_config_default(self, v, default):
+        """TypeConfig equality with the default configuration: same class, every stored value equal"""
+        v = self.resolve(v)
+        if not (isinstance(v, dict) and "ref" in v):
+            return False
+        node = self.bp["nodes"][v["ref"]]
+        _, cls, dargs = default
+        if node["cls"] != cls or self.mark_at(v["ref"], self.END) is not None and False:
+            return False
+        sp = self.spec[cls]["params"]
+        eff = self.eff[v["ref"]]
+        for name, (kind, tp, d, required) in sp.items():
+            if kind == "gen":
+                continue
+            a = eff.get(name, self._default_value(d, tp))
+            b = dargs.get(name, self._default_value(d, tp))
+            if self.canon_for_default(a, tp) != self.canon_for_default(b, tp):
+                return False
+        return True
 
     def _default_value(self, default, tp):
         """Declared default as a blueprint value"""
